@@ -8,6 +8,7 @@
 From stdpp Require Import gmap list numbers sorting.
 From Coq Require Import ZArith NArith.
 From Verif Require Import Tx.Store Tx.Ledger Tx.Hist Tx.Inv Tx.Refine Tx.RefineAll Tx.Corollaries Tx.Node Tx.NodeProofs.
+From Verif Require Import Tx.InvRange Tx.StoreCorr Tx.Wallet Tx.WalletProofs.
 Local Open Scope Z_scope.
 
 (** For every universe, every chain-consistent history, every prefix of it,
@@ -62,6 +63,68 @@ Theorem C01_for_every_node_history : ∀ (U : universe) (evs p : list event),
 Proof. exact node_c01. Qed.
 Print Assumptions C01_for_every_node_history.
 
+(** The WALLET layer named by the property (Tx/Wallet.v: connectBlock,
+    disconnectBlock, addRelevantTx and the atomic filtered-block handler as
+    compositions of store events plus the synced-to bookkeeping;
+    CalculateBalance, ListUnspent, UnspentOutputs as the wallet computes them
+    from the store at its synced height).  For every notification history
+    whose store-level image [wevents] is chain-consistent, after every prefix,
+    whenever the synced height covers every confirmed transaction (the
+    property's "sync height >= the highest confirmed block"):
+    CalculateBalance(minconf) is the ledger balance at the synced height,
+    ListUnspent(minconf, maxconf) and UnspentOutputs(minconf) are the ledger's
+    spendable outputs filtered by confirmations (and coinbase maturity). *)
+Theorem C01_wallet_layer : ∀ (U : universe) (ns p : list wnotif),
+  wf_universe U = true → chain_consistent U (wevents U ns) = true → p `prefix_of` ns →
+  let w := wrun U p in
+  let F := fs (spec_run U (wevents U p)) in
+  let now := clock (w_m w) in
+  tip_covers F (w_tip w) = true →
+  (∀ minconf, 0 <= minconf → calculate_balance U w minconf = spec_balance U F minconf (w_tip w) now) ∧
+  (∀ minconf maxconf, list_unspent U w minconf maxconf ≡ₚ list_unspent_of (w_tip w) minconf maxconf (spec_utxos U F now)) ∧
+  (∀ minconf, wallet_unspent U w minconf ≡ₚ wallet_unspent_of (w_tip w) minconf (spec_utxos U F now)).
+Proof. exact wallet_c01. Qed.
+Print Assumptions C01_wallet_layer.
+
+(** The covering hypothesis holds by itself for a backend that announces a
+    block no later than its transactions ([ordered_from]: a connect never
+    lowers the synced height; a transaction is delivered as confirmed at a
+    height at or below it).  In the bitcoind order (transactions before the
+    BlockConnected) it fails between the two notifications - there the
+    property's own hypothesis on the sync height fails too. *)
+Theorem C01_wallet_layer_block_announced_first : ∀ (U : universe) (ns p : list wnotif),
+  wf_universe U = true → chain_consistent U (wevents U ns) = true →
+  ordered_from U (winit true) ns = true → p `prefix_of` ns →
+  let w := wrun U p in
+  let F := fs (spec_run U (wevents U p)) in
+  let now := clock (w_m w) in
+  (∀ minconf, 0 <= minconf → calculate_balance U w minconf = spec_balance U F minconf (w_tip w) now) ∧
+  (∀ minconf maxconf, list_unspent U w minconf maxconf ≡ₚ list_unspent_of (w_tip w) minconf maxconf (spec_utxos U F now)) ∧
+  (∀ minconf, wallet_unspent U w minconf ≡ₚ wallet_unspent_of (w_tip w) minconf (spec_utxos U F now)).
+Proof. exact wallet_c01_ordered. Qed.
+Print Assumptions C01_wallet_layer_block_announced_first.
+
+(** The wallet's store IS the store after the store-level image of the
+    notification history (what ties the two layers). *)
+Theorem C01_wallet_store_is_store_of_image : ∀ U ns, w_m (wrun U ns) = run U (wevents U ns).
+Proof. exact wrun_store. Qed.
+Print Assumptions C01_wallet_store_is_store_of_image.
+
+(** The rescan set: OutputsToWatch is exactly the credited outputs of known
+    transactions that no CONFIRMED transaction spends - unconfirmed credits,
+    leased outputs and outputs spent only by unconfirmed transactions
+    included - after every prefix of every chain-consistent history. *)
+Theorem C01_watch_set_equals_ledger : ∀ (U : universe) (h p : list event),
+  wf_universe U = true → chain_consistent U h = true → p `prefix_of` h →
+  map u_op (outputs_to_watch U (st (run U p)) (clock (run U p))) ≡ₚ spec_watch U (fs (spec_run U p)).
+Proof. exact watch_set_is_ledgers. Qed.
+Print Assumptions C01_watch_set_equals_ledger.
+
+(** the oracle evaluated in the cases files (StoreCorr.s_watch, code 115) is
+    this specification, sorted *)
+Example C01_watch_oracle_is_spec_watch : ∀ U sm, s_watch U sm = merge_sort op_le (spec_watch U (fs sm)).
+Proof. reflexivity. Qed.
+
 (** Non-vacuity: a consistent history with a chain, a conflict, a coinbase, a
     same-block parent/child, a rollback below a spender and a lease. *)
 Definition mk (id : N) (ins : list (N * N)) (outs : list Z) (creds : list (N * bool)) (cb : bool) : tx :=
@@ -86,4 +149,34 @@ Example C01_nonvacuous :
   balance ex_U (st (run ex_U ex_h)) 0 11 (clock (run ex_U ex_h)) = 7000 ∧
   spec_balance ex_U (fs (spec_run ex_U ex_h)) 0 11 (sclock (spec_run ex_U ex_h)) = 7000 ∧
   balance ex_U (st (run ex_U ex_h)) 1 110 (clock (run ex_U ex_h)) = 7000.
+Proof. vm_compute. repeat split. Qed.
+
+(** Reconnection of detached blocks is inside the hypothesis: the SAME blocks
+    (hash 1 at height 10 with a coinbase, hash 2 at height 11) are detached
+    and connected again, in another order of delivery, with a stale unmined
+    delivery in between. *)
+Definition ex_h_reconnect : list event :=
+  [ Confirm 8%N 10 1%N 0; Confirm 2%N 10 1%N 0; Confirm 4%N 11 2%N 0; Disconnect 10;
+    Confirm 2%N 10 1%N 0; Seen 4%N; Confirm 8%N 10 1%N 0; Confirm 4%N 11 2%N 0; Disconnect 11; Confirm 4%N 11 2%N 0 ].
+Example C01_reconnect_admitted :
+  chain_consistent ex_U ex_h_reconnect = true ∧
+  balance ex_U (st (run ex_U ex_h_reconnect)) 0 11 0 = 7000 + 4000 ∧
+  balance ex_U (st (run ex_U ex_h_reconnect)) 1 200 0 = 7000 + 4000 + 50000.
+Proof. vm_compute. repeat split. Qed.
+
+(** Non-vacuity of the wallet layer: blocks connected from height 1, a
+    transaction before and after its BlockConnected, a tip disconnect, a
+    stale disconnect (ignored), the same block connected again. *)
+Definition ex_ns : list wnotif :=
+  [ WConnect 1 11%N 0; WRelevant 2%N None; WConnect 2 12%N 0; WRelevant 2%N (Some (2, 12%N, 0));
+    WRelevant 4%N (Some (3, 13%N, 0)); WConnect 3 13%N 0; WDisconnect 3 99%N; WDisconnect 3 13%N;
+    WConnect 3 13%N 0; WFiltered 3 13%N 0 [4%N] ].
+Example C01_wallet_nonvacuous :
+  chain_consistent ex_U (wevents ex_U ex_ns) = true ∧
+  wevents ex_U ex_ns = [Seen 2%N; Confirm 2%N 2 12%N 0; Confirm 4%N 3 13%N 0; Disconnect 3; Confirm 4%N 3 13%N 0] ∧
+  w_tip (wrun ex_U ex_ns) = 3 ∧
+  tip_covers (fs (spec_run ex_U (wevents ex_U ex_ns))) (w_tip (wrun ex_U ex_ns)) = true ∧
+  calculate_balance ex_U (wrun ex_U ex_ns) 1 = 7000 + 4000 ∧
+  calculate_balance ex_U (wrun ex_U ex_ns) 2 = 7000 ∧
+  map fst (list_unspent ex_U (wrun ex_U ex_ns) 1 1) = [(4%N, 0%N, 4000)].
 Proof. vm_compute. repeat split. Qed.
